@@ -493,7 +493,9 @@ def generate_schedule(args):
         for idx, i in enumerate(period):
             # use curtailment power first (greedy charging)
             if curtailment[i] > EPS:
-                power = min(curtailment[i], avail["max"][i], power_needed, ind_flex[idx][1])
+                # greedy charging only: never negative (e.g. when discharging a battery)
+                power = max(
+                    min(curtailment[i], avail["max"][i], power_needed, ind_flex[idx][1]), 0)
                 power_needed -= power
                 schedule[i] += power
                 avail["min"][i] += power
